@@ -59,6 +59,8 @@ def seeds(quick):
     import dotnetgen, pegen
     S.append(("synthetic-pe", pegen.build()))              # imports, delayed imports, exports + forwarder, resource tree + version info, debug dir, rich signature, certificate, overlay (lib/pegen.py)
     S.append(("synthetic-dotnet", dotnetgen.build()))      # TypeSpec chains, generics, nested classes, signatures: one edit away from reference cycles (lib/dotnetgen.py)
+    import elfgen
+    S += elfgen.seeds(quick)                                 # ET_EXEC images whose program header table is the last thing in the file; variants with an entry-size field that differs from the real size (lib/elfgen.py)
     S += [("empty", b""), ("one-byte", b"M"), ("MZ", b"MZ"), ("zeros", b"\0" * 4096), ("ff", b"\xff" * 512), ("elf-magic", b"\x7fELF" + b"\x01" * 60)]
     if not quick:
         for f in ("tiny", "tiny-idata-51ff", "tiny-overlay", "tiny-universal", "elf_with_imports", "mtxex_modified_rsrc_rva.dll", "tiny_empty_import_name", "ChipTune.efi", "pe_imports", "079a472d22290a94ebb212aa8015cdc8dd28a968c6b4d3b88acdd58ce2d3b885.upx"):
@@ -252,7 +254,7 @@ def main():
     ck.cov["rules"] = nrules
     ck.sample(dict(seed=cover[0]["seed"], case="set=60:ff (one byte of the seed replaced), scanned with %d rules calling every module function" % nrules))
     ck.cov["rule"] = ("a case = one seed with one deviation (truncation length / byte value at a live position / 16- or 32-bit field value near a live position; thorough: pairs); "
-                      "seeds = in-tree executables of every module's format + a synthetic PE with every table pe.c walks (lib/pegen.py) + a synthetic .NET image with recursive metadata (lib/dotnetgen.py) + degenerate inputs; live = byte positions whose flip changes a module's object dump or a verdict "
+                      "seeds = in-tree executables of every module's format + a synthetic PE with every table pe.c walks (lib/pegen.py) + a synthetic .NET image with recursive metadata (lib/dotnetgen.py) + synthetic ELF executables with the program header table last and odd entry-size fields (lib/elfgen.py) + degenerate inputs; live = byte positions whose flip changes a module's object dump or a verdict "
                       "(measured); non-trivial = cases at live positions; nothing is claimed beyond this neighbourhood")
     ck.assumptions += ["exhaustive for 1 deviation over the boundary alphabet (and the defined 2-closure in the thorough tier) - inputs needing three coordinated edits are outside",
                        "UBSan groups alignment, signed-integer-overflow, shift-base, function, nonnull-attribute, pointer-overflow are disabled (DESIGN 5)"]
